@@ -19,7 +19,8 @@ sys.path.insert(0, '/verif')
 from pyvc import specs as S      # noqa: E402
 from replayers import monitor    # noqa: E402
 
-NCT = 4      # CT2: falsy instances (__len__ 0); CT3: derived from CT0 (exact-type bookkeeping must not confuse them)
+NCT = 5      # CT2: falsy instances (__len__ 0); CT3: derived from CT0; CT4: derived from PositionComponent (exact-type
+             # bookkeeping must not confuse a component with one of a related class)
 NK = 4
 
 
@@ -35,6 +36,10 @@ def make_world():
         ns = {'_verif_user': True, '__slots__': ()}
         if k == 2:
             ns['__len__'] = lambda self: 0          # a container-like component that is falsy (identity equality kept)
+        if k == 4:
+            from ECAgent.Environments import PositionComponent
+            w.CT.append(type('CT4', (PositionComponent,), {'_verif_user': True}))
+            continue
         w.CT.append(type(f'CT{k}', ((w.CT[0],) if k == 3 else (Component,)), ns))
     K0 = type('K0', (Agent,), {'_verif_user': True})
     K1 = type('K1', (K0,), {})
@@ -258,6 +263,8 @@ def run_history(ops, props=None):
                     out.append(('C04', f'{where}: rejected removal left a trace'))
             except Exception as ex:
                 out.append(('C04', f'{where}: removing a present agent raised {type(ex).__name__}: {ex}'))
+                if props and 'C13' in props and names and aid in env.agents:
+                    continue          # the queries go on: a removal that failed must not have changed who is listed, or where
                 return out
         elif kind == 'remove_alias':
             # leaving through the deprecated camelCase alias must behave like remove_agent
@@ -522,6 +529,14 @@ def small_histories(prop):
         yield [_mk('a', 0, None, order), _mk('b', 0, None, (0,)), _mk('c', 0, None, (3,)), ('add', 'a'), ('add', 'b'),
                ('add', 'c'), ('query', [0], 'none'), ('query', [3], 'none'), ('query', [0, 3], 'none'), ('remove', 'a'),
                ('query', [0], 'none'), ('add', 'a'), ('remove', 'b'), ('remove', 'c'), ('remove', 'a')]
+    if prop == 'C13':
+        # queries are filters over the agents' *current* components, in joining order - also after a removal that failed
+        yield [_mk('a', 0, None, (0,)), _mk('b', 0, None, (0,)), _mk('c', 0, None, (0,)), ('add', 'a'), ('add', 'b'),
+               ('add', 'c'), ('attach', 'b', 1), ('query', [1], 'none'), ('remove', 'b'), ('query', [], 'none'),
+               ('query', [0], 'none'), ('remove', 'a'), ('query', [0], 'none')]
+        yield [_mk('a', 0, None, (0, 3)), _mk('b', 0, None, (3,)), _mk('c', 0, None, (3, 0)), ('add', 'a'), ('add', 'b'),
+               ('add', 'c'), ('detach', 'a', 0), ('query', [3], 'none'), ('query', [0], 'none'), ('detach', 'c', 0),
+               ('query', [3], 'none'), ('query', [0, 3], 'none')]
     # tags beyond the small-int cache, falsy components
     yield [_mk('a', 0, 70001, (2,)), _mk('b', 0, 70001, (0, 2)), _mk('c', 0, 5, (2,)), ('add', 'a'), ('add', 'b'), ('add', 'c'),
            ('query', [], 70001), ('query', [2], 'none'), ('query', [0, 2], 70001), ('query', [2], 5), ('remove', 'a'), ('remove', 'b')]
@@ -583,8 +598,8 @@ def spatial_histories(prop):
         fl = kind == 'space'
         half = 0.5 if fl else 0
         for wrap in (False, True):
-            ops = [('world', kind, W, H, D, wrap), _mk('a', 0, None, (0,)), _mk('b'), _mk('c'),
-                   ('add', 'a', 0, 0, 0), ('add', 'b', (W - (0 if fl else 1)) if W else 0, (H - (0 if fl else 1)) if H else 0,
+            ops = [('world', kind, W, H, D, wrap), _mk('a', 0, None, (0,)), _mk('b', 0, None, (4,)), _mk('c'), _mk('a#2'),
+                   ('add', 'a', 0, 0, 0), ('add', 'a#2', half, 0, 0), ('add', 'b', (W - (0 if fl else 1)) if W else 0, (H - (0 if fl else 1)) if H else 0,
                                            (D - (0 if fl else 1)) if D else 0), ('add', 'c', half, 0, 0)]
             for d in [(1, 0, 0), (0, 1, 0), (0, 0, 1), (-1, -1, -1), (11, -9, 23), (-17, 40, -3), (W, H, D),
                       (2 * W + 1, -2 * H - 1, 3 * D), (half, half, half)]:
@@ -652,5 +667,5 @@ def histories(seed, budget, prop='C04'):
     yield from small_histories(prop)
     for _ in range(budget):
         h = random_history(rng, prop)
-        if not _resident_edits(h):
+        if prop == 'C13' or not _resident_edits(h):
             yield h
